@@ -897,6 +897,19 @@ func (g *FuncGen) execGhost(at string, cx *SpecCtx) {
 					isPoint = true
 				}
 			}
+			if id, isId := ix.X.(*EIdent); isId {
+				if key, kind, isGV := g.ghostVar(id.Name); isGV {
+					// point update of a ghost global map
+					var idx string
+					if strings.HasPrefix(kind, "str") && kind != "strmap" {
+						idx = cx.eval(ix.I).t
+					} else {
+						idx = cx.intTerm(ix.I)
+					}
+					g.update(key, fmt.Sprintf("(store %s %s %s)", g.get(g.st, key), idx, cx.eval(gs.Value).t))
+					continue
+				}
+			}
 			if isPoint {
 				// point update of a ghost map: m[idx] := value
 				locs := cx.locations(ix.X)
